@@ -240,6 +240,14 @@ Section Model.
   Definition mapped_via_mapping_matrix (M : mat) (s : vec) : vec :=
     map (fun r => fold_left (fun acc j => add F acc (mul F (nthT s j) (nthT r j))) (seq 0 (length s)) zero) M.
 
+  (* mapped_reconstructed_data_via_image_to_pix_unique_from (w-tilde formalism): one row of data_to_pix_unique /
+     data_weights per image pixel, the first pix_lengths[d] entries are meaningful *)
+  Definition unique_row (prow : list Z) (wrow : vec) (len : nat) (s : vec) : T :=
+    fold_left (fun acc p => add F acc (mul F (nthT wrow p) (nthT s (Z.to_nat (nth p prow 0%Z))))) (seq 0 len) zero.
+  Definition mapped_via_unique (pix : list (list Z)) (wts : mat) (lens : list nat) (s : vec) : vec :=
+    map (fun pwl : (list Z * vec) * nat => unique_row (fst (fst pwl)) (snd (fst pwl)) (snd pwl) s)
+        (combine (combine pix wts) lens).
+
   (* ------------------------------------------------------------------ abstract.py *)
   (* a linear object: number of parameters, is it a mapper, its edge_pixel_list, its mapping matrix (used by
      mapper_zero_pixel_list) *)
@@ -306,6 +314,10 @@ Section Model.
                        else leb F (opp F tol) (grad A b d i))) (seq 0 (length b)).
   Definition solves_ok (A : mat) (b s : vec) (tol : T) : bool :=
     Nat.eqb (length s) (length b) && forallb (fun i => leb F (absT (grad A b s i)) tol) (seq 0 (length b)).
+  (* the row of the mapping matrix that one row of unique mappings stands for: M[d, j] = sum of the weights whose pixel is j *)
+  Definition unique_matrix_row (prow : list Z) (wrow : vec) (len npar : nat) : vec :=
+    map (fun j => sumT (map (fun p => if Nat.eqb (Z.to_nat (nth p prow 0%Z)) j then nthT wrow p else zero) (seq 0 len)))
+        (seq 0 npar).
   Definition mat_vec (A : mat) (x : vec) : vec := map (fun r => dot r x) A.
   (* the objective  1/2 s^T (F+H) s - D^T s *)
   Definition objective (A : mat) (b x : vec) : T := sub F (mul F half (dot x (mat_vec A x))) (dot b x).
@@ -329,7 +341,8 @@ Inductive case :=
 | KPosNeg (A : qm) (b : qv) (ranges : list (nat * nat)) (chk : bool) (out : res qv)   (* reconstruction_positive_negative_from *)
 | KRecon (set : settings) (objs : list (@lobj QOps)) (A : qm) (b : qv) (eps : Q) (out : res qv)   (* Inversion.reconstruction *)
 | KMapped (Bs : list qm) (s : qv) (npix : nat) (dict : list qv) (total : qv)          (* mapped_reconstructed_data_dict / _data *)
-| KDict (ps : list nat) (s : qv) (out : list qv).                                     (* reconstruction_dict *)
+| KDict (ps : list nat) (s : qv) (out : list qv)                                      (* reconstruction_dict *)
+| KUnique (pix : list (list Z)) (wts : qm) (lens : list nat) (s : qv) (M : qm) (out : qv).   (* ..._via_image_to_pix_unique_from; M = mapper.mapping_matrix *)
 
 Definition strip (r : res (@vec QOps * exit_kind * list bool)) : res qv :=
   match r with Ok (d, _, _) => Ok d | Raise e => Raise e end.
@@ -344,6 +357,7 @@ Definition agree (k : case) : bool :=
       let md := @mapped_dict QOps Bs s in
       list_eqb qv_close dict md && qv_close total (@mapped_total QOps npix md)
   | KDict ps s out => list_eqb qv_eqb out (@split_by QOps ps s)
+  | KUnique pix wts lens s M out => qv_close out (@mapped_via_unique QOps pix wts lens s)
   end.
 
 (* ---- specification side, evaluated on the implementation's output; never calls fnnls / reconstruction ---- *)
@@ -391,6 +405,12 @@ Definition spec_ok (k : case) : bool :=
       && forallb (fun x => let '(B, so, out) := x in qv_close out (map (fun r => @dot QOps r so) B)) (combine (combine Bs ss) dict)
       && qv_close total (@hstack_dot QOps Bs s npix)
   | KDict ps s out => qv_eqb (concat out) s && list_eqb Nat.eqb (map (@length Q) out) ps
+  | KUnique pix wts lens s M out =>
+      (* the unique mappings stand for the mapping matrix, and the output is mapping matrix x reconstruction *)
+      list_eqb qv_close M (map (fun pwl : (list Z * qv) * nat =>
+                                  @unique_matrix_row QOps (fst (fst pwl)) (snd (fst pwl)) (snd pwl) (length s))
+                               (combine (combine pix wts) lens))
+      && qv_close out (map (fun r => @dot QOps r s) M)
   end.
 
 Definition check (k : case) : nat := verdict (agree k) (spec_ok k).
